@@ -312,10 +312,14 @@ def build_records(chk):
                 recs.append(r)
     fns = ["non_singlet_variation_qed", "valence_variation_qed", "singlet_variation_qed"]
     for idx, (o0, o1, running) in enumerate(combos):
-        fn = fns[idx % 3]
-        if fn == "singlet_variation_qed" and not thorough and (o0, o1) not in ((4, 2), (2, 2), (3, 1)):
-            fn = "valence_variation_qed"
-        recs.append(expaq_record(rng, fn, o0, o1, running, BetaSrc(rng, idx % 4 == 3)))
+        # the non-singlet and the valence kernel at every (order, running); the singlet kernel (4 x 4 symbolic
+        # matrices: the expensive one for TLC) at every combination in the thorough tier, in the quick tier at the
+        # highest orders plus a rotating third of the others
+        todo = ["non_singlet_variation_qed", "valence_variation_qed"]
+        if thorough or (o0, o1) in ((4, 2), (2, 2), (3, 1), (1, 0)) or idx % 3 == 2:
+            todo.append("singlet_variation_qed")
+        for q, fn in enumerate(todo):
+            recs.append(expaq_record(rng, fn, o0, o1, running, BetaSrc(rng, (idx + q) % 4 == 3)))
     return recs
 
 
